@@ -33,7 +33,7 @@ for _p, _extra in {
     "C05": "__iadd__/__add__ same-bins and refusal arms; Statistics.__add__ is proved unbounded.",
     "C06": "scaling/division arms and refusals; Statistics.__mul__ is proved unbounded.",
     "C09": "projection over every enumerated axis tuple of 2D-4D shapes, T, accumulate. Additionally unbounded (counted under obligations/discharged): the projection of a 2-D "
-           "histogram of ANY shape onto one axis (by index or name) -- marginal contents and errors as recursive row / column sums, bins and name of the kept axis, parent untouched.", "C10": "merge_bins(amount) 1D/2D.",
+           "histogram of ANY shape onto one axis (by index or name) -- marginal contents and errors as recursive row / column sums, bins and name of the kept axis, parent untouched; Histogram2D.T for any shape (bins, names, contents swapped, T.T is the original).", "C10": "merge_bins(amount) 1D/2D.",
     "C11": "1D int/slice/mask/index-array and ND tuple indexing.", "C12": "independence (no shared writable storage) of copy, +, *, /, merge, slices, projections, T.",
     "C13": "dtype consistency/promotion clauses of fill, fill_n, +, *, /.", "C18": "state-unchanged clauses on every refusing path of the mutators.",
 }.items():
